@@ -68,7 +68,7 @@ add("C19", "mb2-check+sandbox", "bounded-exhaustive + property-based testing aga
     "Entry count x entry size x table length x string-table index (incl. reserved ELF indices) x raw type classes, generated tables, sequences of tags at one address, and tables beyond 2^16 entries: fitting tags yield exactly the in-use entries with decoded fields and names; others must be rejected by a panic without reading outside.",
     "section names live in harness-owned memory the tag points at (documented external address)", "DESIGN.md §4 C19")
 add("C20", "mb2-check", "exhaustive 2^32 enumeration (thorough) / stratified sampling (quick) of conversion laws",
-    "All conversion, naming and equality laws for every 32-bit value, ELF type classification through the public iterator (in forked children: a fault is a verdict) for all 2^32 raw values, all 256 framebuffer type bytes, both magics.",
+    "All conversion, naming and equality laws for every 32-bit value, ELF type classification through the public iterator (in forked children: a fault is a verdict) for all 2^32 raw values, all 256 framebuffer type bytes (stand-alone, through the getter with other tags present, and in a panic=abort build of the crates), both magics.",
     "the exhaustive sweep runs in the release build; the dev build runs the stratified sample", "DESIGN.md §4 C20")
 
 add("C08", "mb2-check+transcript", "differential testing of four separately compiled configurations over generated inputs",
